@@ -572,7 +572,7 @@ func init() {
 	I["(*math/big.Rat).SetString"] = func(fr *frame, a []value) value {
 		s, ok := a[1].(string)
 		if !ok {
-			panic(engineErr("big.Rat.SetString on a symbolic string"))
+			return ratSetStringSym(fr, a)
 		}
 		r, ok := new(big.Rat).SetString(s)
 		if !ok {
@@ -741,4 +741,65 @@ func init() {
 		X.sched().checkFailure()
 		return nil
 	}
+}
+
+
+// ratSetStringSym: big.Rat.SetString on a structured symbolic string of the forms
+// A "/" B and A "." B (A, B symbolic digit strings, as produced by the repo's portion parser).
+func ratSetStringSym(fr *frame, a []value) value {
+	ps, ok := structOf(a[1])
+	if !ok {
+		panic(engineErr("big.Rat.SetString on an unstructured symbolic string"))
+	}
+	digits := "(re.+ (re.range \"0\" \"9\"))"
+	toInt := func(p piece) (string, bool) {
+		if p.it != "" {
+			return p.it, true
+		}
+		if !p.sym {
+			return "", false
+		}
+		return "(str.to_int " + p.s + ")", true
+	}
+	isDigits := func(p piece) string {
+		if p.it != "" {
+			return "(>= " + p.it + " 0)"
+		}
+		return "(str.in_re " + p.s + " " + digits + ")"
+	}
+	if len(ps) == 3 && ps[0].sym && !ps[1].sym && ps[2].sym && ps[1].s == "/" {
+		n, _ := toInt(ps[0])
+		d, _ := toInt(ps[2])
+		if !X.branch(mkBool("(and "+isDigits(ps[0])+" "+isDigits(ps[2])+")"), "rat-setstring-syntax") {
+			return tuple{(*value)(nil), false}
+		}
+		if X.branch(mkBool("(= "+d+" 0)"), "rat-setstring-zero-denominator") {
+			return tuple{(*value)(nil), false}
+		}
+		rn, rd := ratNorm(mkBigT(n), mkBigT(d))
+		setRat(a[0], rn, rd)
+		return tuple{a[0], true}
+	}
+	if len(ps) >= 2 && ps[0].sym && !ps[1].sym && ps[1].s == "." && (len(ps) == 2 || len(ps) == 3 && ps[2].sym) {
+		n, _ := toInt(ps[0])
+		if len(ps) == 2 {
+			if !X.branch(mkBool(isDigits(ps[0])), "rat-setstring-syntax") {
+				return tuple{(*value)(nil), false}
+			}
+			setRat(a[0], mkBigT(n), mkBig(big.NewInt(1)))
+			return tuple{a[0], true}
+		}
+		if !X.branch(mkBool("(and "+isDigits(ps[0])+" "+isDigits(ps[2])+")"), "rat-setstring-syntax") {
+			return tuple{(*value)(nil), false}
+		}
+		// the scale depends on the number of fractional digits: fork over it (bounded)
+		k := X.concretize(symInt{"(str.len " + ps[2].s + ")", types.Int}, 1, 8)
+		scale := new(big.Int).Exp(big.NewInt(10), big.NewInt(int64(k)), nil)
+		f, _ := toInt(ps[2])
+		num := "(+ (* " + n + " " + scale.String() + ") " + f + ")"
+		rn, rd := ratNorm(mkBigT(num), mkBig(scale))
+		setRat(a[0], rn, rd)
+		return tuple{a[0], true}
+	}
+	panic(engineErr("big.Rat.SetString on a symbolic string of an unsupported shape"))
 }
